@@ -10,7 +10,7 @@ import json,sys
 w,s,r,f=sys.argv[1:5]
 m=json.load(open('/tmp/mut/%s/OUT/meta.json'%w))
 m['property']=s.split('-')[0]
-m['reported_by']=[r]; m['first_run']=f; m['round']=10
+m['reported_by']=[r]; m['first_run']=f; m["round"]=int(__import__("os").environ.get("ROUND","11"))
 json.dump(m,open('/verif/seeded/%s/meta.json'%s,'w'),indent=2)
 PY
 ls /verif/seeded/$S
